@@ -386,6 +386,8 @@ def to_tt(A,N=None,eps=1e-14,rmax=100,is_sparse=False):
     # check if rmax is a list
     if not isinstance(rmax,list):
         rmax = [1] + (d-1)*[rmax] + [1]
+    # plain integers: the ranks are multiplied with the mode sizes (a cap given as np.int8 would overflow there)
+    rmax = [int(r) for r in rmax]
         
     C = A   
     cores = [] 
